@@ -365,6 +365,13 @@ func (handler) EchoForm(ctx context.Context, req *api.Form) (*api.Form, error) {
 	return &cp, nil
 }
 
+// mpMembers are the non-file members of the multipart body, each in another encoding: range as a form-style
+// exploded object, deep as a deepObject, meta as a JSON part, labels as repeated parts.
+type mpMembers struct {
+	Range, Deep, Meta api.OptRange
+	Labels            []string
+}
+
 type fileSeen struct {
 	Name string
 	Sum  string
@@ -406,14 +413,17 @@ func (handler) EchoMultipart(ctx context.Context, req *api.EchoMultipartReq) (*a
 	if req.Extra.Set {
 		extra = readFile(ctx, req.Extra.Value)
 	}
+	members := canon(mpMembers{req.Range, req.Deep, req.Meta, req.Labels})
 	saw(ctx, canon(struct {
-		Name  string
-		Count api.OptInt
-		File  fileSeen
-		Extra fileSeen
-		HasEx bool
-	}{req.Name, req.Count, file, extra, req.Extra.Set}))
+		Name    string
+		Count   api.OptInt
+		File    fileSeen
+		Extra   fileSeen
+		HasEx   bool
+		Members string
+	}{req.Name, req.Count, file, extra, req.Extra.Set, members}))
 	up := &api.Upload{Name: req.Name, Count: req.Count.Value, FileSum: file.Sum, FileLen: file.Len}
+	up.Members.SetTo(members)
 	up.FileName.SetTo(file.Name)
 	if req.Extra.Set {
 		up.ExtraSum.SetTo(extra.Sum)
@@ -817,6 +827,22 @@ func secondMiddleware(req middleware.Request, next middleware.Next) (middleware.
 	return next(req)
 }
 
+// makeRange makes an object member for forms and multipart bodies: at least one of its members is set (a form
+// has no way to carry an object without members).
+func makeRange(tag string, r *vrng) api.Range {
+	var g api.Range
+	if r.coin() {
+		g.Min.SetTo(r.intn(1000))
+	}
+	if r.coin() {
+		g.Max.SetTo(1000 + r.intn(1000))
+	}
+	if r.coin() || (!g.Min.Set && !g.Max.Set) {
+		g.Unit.SetTo("u-" + tag)
+	}
+	return g
+}
+
 // ---------------------------------------------------------------- client side: one call
 
 func errClass(err error) string {
@@ -889,6 +915,12 @@ func doCall(ctx context.Context, c *api.Client, rec *CallRecord) {
 		if r.coin() {
 			f.Langs = []string{"go-" + tag, "c++ " + tag}
 		}
+		if r.coin() {
+			f.Range.SetTo(makeRange(tag, r)) // form style, exploded: the members travel under their own names
+		}
+		if r.coin() {
+			f.Deep.SetTo(makeRange(tag, r)) // deepObject: deep[min]=..
+		}
 		if call.Invalid != "" {
 			f.Name = ""
 			rec.ExpectStatus, rec.ExpectErrClass = 400, "error"
@@ -923,14 +955,29 @@ func doCall(ctx context.Context, c *api.Client, rec *CallRecord) {
 			req.Extra.SetTo(ht.MultipartFile{Name: "e-" + tag + ".bin", File: bytes.NewReader(eb)})
 			exExtra = fileSeen{Name: "e-" + tag + ".bin", Sum: sum(eb), Len: len(eb)}
 		}
+		if r.coin() {
+			req.Range.SetTo(makeRange(tag, r))
+		}
+		if r.coin() {
+			req.Deep.SetTo(makeRange(tag, r))
+		}
+		// meta is always sent: an unset optional member whose part is JSON-encoded is written as an empty part by
+		// the generated client and refused by the server (DESIGN.md 10.8, observed by the deliverable audit)
+		req.Meta.SetTo(makeRange(tag, r))
+		if r.coin() {
+			req.Labels = []string{"l1-" + tag, "l 2 " + tag}
+		}
+		members := canon(mpMembers{req.Range, req.Deep, req.Meta, req.Labels})
 		rec.ExpectServerSaw = canon(struct {
-			Name  string
-			Count api.OptInt
-			File  fileSeen
-			Extra fileSeen
-			HasEx bool
-		}{req.Name, expCount, fileSeen{Name: "f-" + tag + ".bin", Sum: sum(fb), Len: len(fb)}, exExtra, hasExtra})
+			Name    string
+			Count   api.OptInt
+			File    fileSeen
+			Extra   fileSeen
+			HasEx   bool
+			Members string
+		}{req.Name, expCount, fileSeen{Name: "f-" + tag + ".bin", Sum: sum(fb), Len: len(fb)}, exExtra, hasExtra, members})
 		up := api.Upload{Name: req.Name, Count: expCount.Value, FileSum: sum(fb), FileLen: len(fb)}
+		up.Members.SetTo(members)
 		up.FileName.SetTo("f-" + tag + ".bin")
 		if hasExtra {
 			up.ExtraSum.SetTo(sum(eb))
